@@ -679,6 +679,8 @@ class TermAnalysis(Analysis):
             if fr is not None and fr[0] == "global":
                 q = fr[1]
                 if q in self.prog.funcs:
+                    if self.prog.funcs[q].kind == "classmethod" and recv[0] == "global" and recv[1] in self.prog.classes:
+                        args = (recv,) + args          # Class.method(...): keep which class it was called on
                     return ("call", ("func", q), args, kwargs)
                 if q in self.prog.classes:
                     return ("call", ("func", q), args, kwargs)   # constructor
